@@ -6,7 +6,8 @@ namespace BM
 
 /-- `NewPolicy()` with the regenerated default tables -/
 def newPolicy : Policy :=
-  { setOfElementsAllowedWithoutAttrs := Gen.defaultNoAttrs
+  { initialized := true
+    setOfElementsAllowedWithoutAttrs := Gen.defaultNoAttrs
     setOfElementsToSkipContent := Gen.defaultSkipContent }
 
 /-- `StrictPolicy()` is `NewPolicy()` (policies.go; re-checked by the extractor) -/
